@@ -564,3 +564,27 @@ func backingFromReceiver(fn *core.Func, e ast.Expr) (string, bool) {
 	}
 	return walk(e, 0)
 }
+
+// ruleAliasHygiene runs the three aliasing rules that are independent of any
+// particular function (published storage is not recycled; appends to a
+// field go back to the field; no element pointer is used across an append)
+// over the given packages.  ids are the three rule ids to report under.
+func ruleAliasHygiene(c *core.Ctx, ids [3]string, pkgs ...string) {
+	var present []string
+	for _, p := range pkgs {
+		if c.Prog.HasPkg(p) {
+			present = append(present, p)
+		}
+	}
+	if len(present) != len(pkgs) {
+		c.Check(ids[0], "alias-hygiene/packages", "packages loaded", func(o *core.Ob) {
+			core.Undecided("some of %v are not loaded", pkgs)
+		})
+		return
+	}
+	rulePublishedNotRecycled(c, ids[0], pkgs...)
+	ruleNoForeignAppend(c, ids[1], 0, pkgs...)
+	for _, p := range pkgs {
+		ruleNoStaleElementPointers(c, ids[2], p)
+	}
+}
